@@ -11,11 +11,11 @@
    of fix 96ad5a7).  The full-strength refinement statement is still FALSE for it (known findings D5, D9 in
    docs/C02.md).  It is kept visible as [C02_heap_full]; dropping either of the two hypotheses "the new value
    is frozen" / "ownership invariant [orep]" is refuted by witnesses computed with the model, and the positive
-   theorem is proved under those hypotheses for paths whose slice component, if any, comes last
-   ([ok_path]); a slice component followed by further components is modelled and corresponded but neither
-   proved nor refuted ([C02_heap_inner_slices_open]).  D4 (repaired) is kept as a regression example. *)
+   theorem is proved under those hypotheses for every path in which no slice is directly followed by
+   another slice ([ok_path]); that last shape is modelled and corresponded but neither proved nor refuted
+   ([C02_heap_inner_slices_open]).  D4 (repaired) is kept as a regression example. *)
 From Coq Require Import List ZArith NArith.
-From Verif Require Import c02.Path c02.PathProofs c02.HeapPath c02.HeapInv c02.HeapProofs c02.HeapSlice c02.HeapAbs c02.HeapWitness c02.HeapSweep c02.HeapDelpaths c02.HeapReduce.
+From Verif Require Import c02.Path c02.PathProofs c02.HeapPath c02.HeapInv c02.HeapProofs c02.HeapSlice c02.HeapInner c02.HeapAbs c02.HeapWitness c02.HeapSweep c02.HeapDelpaths c02.HeapReduce.
 Import ListNotations.
 
 (* The statement one would like (DESIGN section 5, C02 T.1): on ANY acyclic heap, for ANY path and ANY
@@ -24,17 +24,20 @@ Definition C02_heap_full : Prop := forall p h ps v j n jn,
   alloc_wf ps -> (exists fuel, abs fuel h v = Some j) -> (exists fuel, abs fuel h n = Some jn) ->
   refines current h ps v p n j jn.
 
-(* Open (neither proved nor refuted; corresponded by the heap stream): the positive theorem for EVERY path,
-   i.e. also for a slice component followed by further components, where update works through a
-   sub-slice window of an owned array. *)
+(* Open (neither proved nor refuted; 0 deviations in the `heapsafe` stream, 460 000 cases): the positive
+   theorem for EVERY path, i.e. also for a slice component DIRECTLY followed by another slice.  Every other
+   shape ([ok_path]: a slice is last or is followed by an index) is proved below. *)
 Definition C02_heap_inner_slices_open : Prop := forall p h ps v j fp n jn,
   alloc_wf ps -> orep h ps j v fp -> NoDup fp -> frep h ps jn n -> refines current h ps v p n j jn.
 
 (* ---- positive theorem ---- *)
 (* On a heap satisfying the ownership invariant (allocated containers form a tree below the state, each
    with one owner, seen through full slice headers; everything else is never written), for a path of keys
-   and indices whose last component may be a slice ([ok_path]: `.a[1][2:4] = x`, `del(.a[1:])`, ...) and a
-   new value that contains no allocated container:
+   indices and slices in which every slice is the last component or is followed by an index ([ok_path]:
+   `.a[1][2:4] = x`, `del(.a[1:])`, `.[2:4][0].b |= f`, the shape of the repaired D4, ...) and a new value that
+   contains no allocated container (through a slice, update works on the window v[start:end:end] of the
+   backing array and splices the result back; an index inside a window that starts at cell 0 of an owned
+   array is written in place, every other write through a window copies it):
    update fails exactly when Path.setpath fails; otherwise it returns (h',u) such that
    - abs h' u = setpath (abs h v) path n for every sufficient fuel (so u is ACYCLIC),
    - FRAME: every value x that does not reach an allocated container denotes the same value in h',
